@@ -11,7 +11,7 @@ from .tyres import Resolver, show_rope
 from mirsym.interp import Hole
 
 G = tyres.G
-GENERIC_ITEMS = ['Inner', 'G1', 'G2', 'G3', 'G4', 'G5', 'G6', 'G7', 'G8', 'G9', 'G10', 'G11', 'G12', 'G13', 'G14', 'G15', 'P1', 'P2', 'P3', 'P5', 'P6',
+GENERIC_ITEMS = ['Inner', 'G1', 'G2', 'G3', 'G4', 'G5', 'G6', 'G7', 'G8', 'G9', 'G10', 'G11', 'G12', 'G13', 'G14', 'G15', 'G16', 'G17', 'Tg1', 'PF5', 'P1', 'P2', 'P3', 'P5', 'P6',
                  'P8', 'P9', 'R1', 'R2', 'E5']
 
 
